@@ -421,6 +421,15 @@ var Items = []Item{
 	{ID: "global-without-value-written-then-read", Decls: "var gz%N% uint64\n\nfunc setg%N%(v uint64) {\n\tgz%N% = v\n}", Core: "setg%N%(4)\n\tr = gz%N% + 1"},
 	{ID: "global-pointer-contents-mutated", Decls: "var gp%N% *uint64 = new(uint64)", Core: "*gp%N% = 6\n\tr = *gp%N% + 1"},
 	{ID: "global-initialised-by-effectful-call-read-twice", Decls: "func fresh%N%() *uint64 {\n\treturn new(uint64)\n}\n\nvar gq%N% *uint64 = fresh%N%()", Core: "p := gq%N%\n\t*p = 8\n\tr = *gq%N%"},
+	// two Go declarations that map to one Coq name; a method declared on an alias (reported by the seed agent of C04-13)
+	{ID: "method-and-function-same-coq-name", Decls: "type Fo%N% struct {\n\tx uint64\n}\n\nfunc (f Fo%N%) bar() uint64 {\n\treturn f.x\n}\n\nfunc Fo%N%__bar(f Fo%N%) uint64 {\n\treturn f.x + 100\n}", Core: "f := Fo%N%{x: 1}\n\tr = f.bar()*1000 + Fo%N%__bar(f)", NoCtx: true},
+	{ID: "method-on-alias-receiver", Decls: "type Tt%N% struct {\n\ty uint64\n}\n\ntype Al%N% = Tt%N%\n\nfunc (a Al%N%) get() uint64 {\n\treturn a.y + 1\n}", Core: "a := Al%N%{y: 4}\n\tr = a.get()", NoCtx: true},
+	{ID: "method-on-alias-pointer-receiver", Decls: "type Tu%N% struct {\n\ty uint64\n}\n\ntype Am%N% = Tu%N%\n\nfunc (a *Am%N%) set(v uint64) {\n\ta.y = v\n}", Core: "a := &Tu%N%{y: 4}\n\ta.set(9)\n\tr = a.y", NoCtx: true},
+	// return nil × result type × where the return stands (a closure inside a function with other result types; seeded change C02-18)
+	{ID: "closure-returns-nil-slice-inside-pointer-function", Decls: "func cn%N%() *uint64 {\n\tf := func() []byte {\n\t\treturn nil\n\t}\n\tb := f()\n\tp := new(uint64)\n\t*p = uint64(len(b)) + 5\n\treturn p\n}", Core: "r = *cn%N%()"},
+	{ID: "closure-returns-nil-slice-pair-inside-pointer-function", Decls: "func cp%N%() (*uint64, bool) {\n\tf := func() ([]byte, bool) {\n\t\treturn nil, true\n\t}\n\tb, ok := f()\n\tp := new(uint64)\n\tif ok {\n\t\t*p = uint64(len(append(b, 1))) + 5\n\t}\n\treturn p, ok\n}", Core: "p, _ := cp%N%()\n\tr = *p", NoCtx: true},
+	{ID: "function-returns-nil-slice", Decls: "func ns%N%() []uint64 {\n\treturn nil\n}", Core: "s := ns%N%()\n\tr = uint64(len(s)) + uint64(len(append(s, 3)))", NoCtx: true},
+	{ID: "function-returns-nil-map-read", Known: "c02PointerNilAssign", Decls: "func nm%N%() map[uint64]uint64 {\n\treturn nil\n}", Core: "m := nm%N%()\n\tr = m[3] + uint64(len(m)) + 1", NoCtx: true},
 	// builtins with fewer explicit arguments than operands: append(s), and a multi-valued call that supplies
 	// both operands (reported by the seed agent of C07-8: copy(g()) made goose panic)
 	{ID: "append-single-argument", Setup: "s := make([]uint64, 2)", Core: "s2 := append(s)\n\tr = uint64(len(s2))"},
